@@ -97,6 +97,14 @@ impl StreamContext {
         info!("finished execution");
     }
 
+    /// Compute the execution graph and the address map this host would use, without starting the
+    /// computation.
+    #[cfg(feature = "verif")]
+    pub fn verif_execution_graph(self) -> crate::verif::GraphDump {
+        let scheduler = self.inner.lock().scheduler.take().unwrap();
+        scheduler.verif_graph_dump()
+    }
+
     /// Get the total number of processing cores in the cluster.
     pub fn parallelism(&self) -> CoordUInt {
         match &self.inner.lock().config {
